@@ -6,6 +6,7 @@ From Coquelicot Require Import Coquelicot.
 From VQ Require Import Num Model.Vec Model.Core Model.Grad Model.Scalar Proofs.GradProofs Glue.GradGlue Glue.Pin_p_grad.
 From VQ Require Import Proofs.StretchRotation.
 From VQ Require Import Glue.SteGlue.
+From VQ Require Import Glue.Pin_fp_C07.
 Import ListNotations.
 Open Scope R_scope.
 
@@ -242,3 +243,8 @@ Theorem C07_src_gumbel_straight_through_slope :
   forall h p c : R, k_gumbel_st.k_gumbel_st R_ops (fun _ : R => c) h p = p + (h - c).
 Proof. exact (@SteGlue.glue_gumbel_st_slope). Qed.
 Print Assumptions C07_src_gumbel_straight_through_slope.
+
+Theorem C07_tie_source_footprint :
+  fp_C07.fp_C07 = pinned_fp_C07.
+Proof. exact (@Pin_fp_C07.pin_fp_C07). Qed.
+Print Assumptions C07_tie_source_footprint.
